@@ -270,10 +270,8 @@ func ruleUnsubPrecond(c *Ctx) {
 				if u, ok := v.(*ssa.UnOp); ok && u.Op == token.NOT {
 					v, neg = u.X, true
 				}
-				if e, ok := v.(*ssa.Extract); ok && e.Index == 1 {
-					if _, ok := e.Tuple.(*ssa.Lookup); ok {
-						return !neg, true
-					}
+				if isLookupOK(p, v, 0) {
+					return !neg, true
 				}
 				return false, false
 			}
@@ -387,10 +385,8 @@ func ruleUnsubPrecond(c *Ctx) {
 			if f, _ := fieldLoad(v); f != nil && f == fDisp {
 				return []Ev{{Kind: "listed"}}
 			}
-			if e, ok := v.(*ssa.Extract); ok && e.Index == 1 {
-				if _, ok := e.Tuple.(*ssa.Lookup); ok {
-					return []Ev{{Kind: "listed"}}
-				}
+			if isLookupOK(p, v, 0) {
+				return []Ev{{Kind: "listed"}}
 			}
 			_ = neg
 			if b, ok := v.(*ssa.BinOp); ok {
@@ -641,6 +637,16 @@ func ruleEvict(c *Ctx) {
 			}
 			if cf.Name() == "Add" && cf.Pkg() != nil && strings.Contains(cf.Pkg().Path(), "openmetrics") {
 				hasGauge = true
+			}
+			// the gauge behind a nil-safe wrapper (metrics.addSubscriptions)
+			if sf := call.Common().StaticCallee(); sf != nil && p.isRepoFn(sf) {
+				for _, h := range p.withHelpers(sf) {
+					for _, c2 := range callsIn(h) {
+						if f2 := calleeFunc(c2.Common()); f2 != nil && f2.Name() == "Add" && f2.Pkg() != nil && strings.Contains(f2.Pkg().Path(), "openmetrics") {
+							hasGauge = true
+						}
+					}
+				}
 			}
 			if cf.Name() == "Add" && cf.Pkg() != nil && strings.HasSuffix(cf.Pkg().Path(), "timerqueue") {
 				c.inst(1)
@@ -1257,13 +1263,13 @@ func ruleThrottle(c *Ctx) {
 		c.inst(1)
 		sp := &Spec{}
 		sp.Classify = func(t *Tracer, fr *Frame, in ssa.Instruction) []Ev {
-			if st, ok := isStoreTo(in, fRun); ok {
+			if st, ok := isStoreToT(t, fr, in, fRun); ok {
 				if b, ok := st.Val.(*ssa.BinOp); ok && b.Op == token.SUB {
 					return []Ev{{Kind: "running--"}}
 				}
 				return []Ev{{Kind: "running=?"}}
 			}
-			if st, ok := isStoreTo(in, fQueue); ok {
+			if st, ok := isStoreToT(t, fr, in, fQueue); ok {
 				return []Ev{{Kind: "dequeue:" + queueForm(st, fQueue)}}
 			}
 			if g, ok := in.(*ssa.Go); ok && g.Common().StaticCallee() == nil {
@@ -1350,4 +1356,33 @@ func ruleThrottle(c *Ctx) {
 			c.check(g != nil, fnName(fn), "a throttle is created only with a positive limit", p.InstrPos(call), "dominated by limit > 0", "a zero-limit throttle queues every request forever")
 		}
 	}
+}
+
+// isLookupOK: v is the ok of a map lookup `x, ok := m[k]`, directly or as the
+// second result of a small helper that returns the lookup's pair.
+func isLookupOK(p *Prog, v ssa.Value, depth int) bool {
+	e, ok := v.(*ssa.Extract)
+	if !ok || depth > 2 {
+		return false
+	}
+	switch t := e.Tuple.(type) {
+	case *ssa.Lookup:
+		return e.Index == 1 && t.CommaOk
+	case *ssa.Call:
+		sf := t.Call.StaticCallee()
+		if sf == nil || !p.isRepoFn(sf) || len(sf.Blocks) == 0 || len(sf.Blocks) > 4 {
+			return false
+		}
+		n := 0
+		for _, in := range instrsOf(sf) {
+			if r, isR := in.(*ssa.Return); isR && e.Index < len(r.Results) {
+				n++
+				if !isLookupOK(p, r.Results[e.Index], depth+1) {
+					return false
+				}
+			}
+		}
+		return n > 0
+	}
+	return false
 }
